@@ -173,14 +173,14 @@ def gen_scenarios(rng, tier):
     # S7 process-wide lazies: first use from several goroutines (one process = one first use)
     for i in range(1 if not thorough else 3):
         sc.append({"name": "std-lazies-%d" % i, "proto": "POnceCell", "hits": False, "env": {},
-                   "cases": [{"kind": "std", "n": rng.choice([6, 9, 12]), "exprs": ["//seq.concat([[1],[2]])", "//str.upper(\"a\")", "//math.pi > 3", "//fn.fix"]}]})
+                   "cases": [{"kind": "std", "n": rng.choice([12, 15, 16]), "exprs": ["//seq.concat([[1],[2]])", "//str.upper(\"a\")", "//math.pi > 3", "//fn.fix"]}]})
 
     # S8 import cache
     cases = [{"kind": "importcache", "mode": "ok", "n": rng.choice([4, 6, 8]), "rounds": 4 if not thorough else 12},
              {"kind": "importcache", "mode": "nil", "n": 4, "rounds": 2 if not thorough else 4}]
     sc.append({"name": "importcache-ok", "proto": "PImportCache", "hits": False, "env": {}, "cases": cases})
     sc.append({"name": "importcache-err", "proto": "PImportCache", "hits": True, "env": {},
-               "cases": [{"kind": "importcache", "mode": "err", "n": 4, "rounds": 2, "timeout_ms": 4000}]})
+               "cases": [{"kind": "importcache", "mode": "err", "n": 4, "rounds": 3, "timeout_ms": 5000}]})
 
     # S9 deprecator (sampled only)
     sc.append({"name": "deprecator", "proto": None, "hits": False, "env": {}, "cases": [{"kind": "deprecate", "n": 8, "rounds": 10 if not thorough else 40}]})
@@ -251,7 +251,8 @@ def main(tier, seed, replay=None):
             q_cur[QUIRK_OF_SIG[sig]] = True
     if replay:
         rp = json.load(open(replay))
-        scenarios = [rp["case"]["scenario"]] if "case" in rp else []
+        scenarios = [rp["case"]["scenario"]] if "case" in rp else \
+            [b["case"]["scenario"] for b in rp.get("no_longer_checks", []) if isinstance(b, dict) and "case" in b]
     else:
         scenarios = gen_scenarios(rng, tier)
         if tier == "thorough":           # several seeds
@@ -301,15 +302,16 @@ def main(tier, seed, replay=None):
                 continue       # neither conflicting access is made by arr-ai/arrai code (harness/runtime): not this property
             for x in set(sites):
                 site_hist[x] = site_hist.get(x, 0) + 1
-            # attributed to a quirk iff every arr-ai access happens in (or below) one of that quirk's call sites
+            # attributed to a quirk iff one of the two conflicting accesses IS the defective access (its accessing
+            # frame is one of the quirk's call sites); whatever it conflicts with touches the same memory
             attributed = None
-            for qs, (proto, qn) in QUIRK_SITES.items():
-                if all(top is None or any(QUIRK_SITES.get(y, (None, None))[1] == qn for y in st) for top, st in zip(rep["sites"], rep["stacks"])):
-                    attributed = qn
+            for x in sites:
+                if x in QUIRK_SITES:
+                    attributed = QUIRK_SITES[x][1]
             rec = dict(base, race_sites=rep["sites"], report=rep["text"],
                        oracle="the race detector reports unsynchronised conflicting accesses in arr-ai/arrai code")
             if attributed:
-                hit = sorted({y for st in rep["stacks"] for y in st if QUIRK_SITES.get(y, (None, None))[1] == attributed})
+                hit = sorted({y for y in sites if QUIRK_SITES.get(y, (None, None))[1] == attributed})
                 if s["proto"] == QUIRK_SITES[hit[0]][0]:
                     own_racy = True
                 for x in hit:
